@@ -1058,8 +1058,11 @@ where
                     hs_noncmplt = Some(c);
                 }
             }
+            // A rule's maximum is only known once every one of its productions is complete (an
+            // incomplete production's cost is a lower bound that can still grow) or once it is
+            // known to be infinite.
             if let Some(high_cmplt) = hs_cmplt
-                && (hs_noncmplt.is_none() || hs_cmplt > hs_noncmplt)
+                && (hs_noncmplt.is_none() || high_cmplt == u16::MAX)
             {
                 debug_assert!(high_cmplt >= costs[i]);
                 costs[i] = high_cmplt;
